@@ -156,10 +156,15 @@ func VerifC12Request(cookie string) (status int, ran bool) {
 // VerifC12Logout sends GET /control/logout with the session cookie through
 // the wrappers httpRegister puts around handleLogout (optionalAuth, method
 // check); ran reports whether handleLogout was reached.
-func VerifC12Logout(cookie string) (status int, ran bool) {
+func VerifC12Logout(cookie string, more ...string) (status int, ran bool) {
 	r := httptest.NewRequest(http.MethodGet, "/control/logout", nil)
 	r.RemoteAddr = "192.0.2.99:4001"
 	r.AddCookie(&http.Cookie{Name: sessionCookieName, Value: cookie})
+	// Further cookies of the same name, as browsers send them when cookies
+	// with different Path/Domain attributes exist.
+	for _, c := range more {
+		r.AddCookie(&http.Cookie{Name: sessionCookieName, Value: c})
+	}
 
 	w := httptest.NewRecorder()
 	optionalAuth(ensure(http.MethodGet, func(w http.ResponseWriter, r *http.Request) {
